@@ -281,8 +281,16 @@ class _FaultyWriter:
     def __enter__(self):
         return self
 
-    def __exit__(self, *a):
+    def close(self):
         self._f.close()
+        if self._what == "eio-close" and not getattr(self, "_closed_once", False):
+            self._closed_once = True
+            self._sim.log.append(("close", self._rel, 0, "eio-close"))
+            self._sim.fired.append("eio-close")
+            raise OSError(errno.EIO, "Input/output error at close (injected)", self._rel)
+
+    def __exit__(self, *a):
+        self.close()
         return False
 
     def __getattr__(self, name):
@@ -374,6 +382,8 @@ class SimIOPlan:
             return _FaultyWriter(f, self, rel, "enospc", int(what.split("@")[1]))
         if what.startswith("crash@"):
             return _FaultyWriter(f, self, rel, "crash", int(what.split("@")[1]))
+        if what == "eio-close":
+            return _FaultyWriter(f, self, rel, "eio-close", 1 << 60)
         raise ValueError(what)
 
 
